@@ -174,6 +174,7 @@ def register(prop, run, KERNELS, C01_COVERS):
                 run("C08_revert", covers=["memonly"], store=0, flushes=0, bigval=0, lean=0, unwind_violation=1)],
          thorough=[run("C08_revert", covers=["done", "reverted-to-empty", "reverted-to-flush", "continued"], store=1, flushes=2, bigval=0, lean=0, unwind_violation=1, step_budget=400000, budget=1800),
                    run("C08_revert", covers=["done", "reverted-to-empty", "reverted-to-flush"], store=1, flushes=3, bigval=1, lean=1, cmps=2, unwind_violation=1, step_budget=800000, budget=1800),
+                   run("C08_revert", covers=["done", "reverted-to-flush"], store=1, flushes=3, bigval=0, lean=1, rootsonly=1, unwind_violation=1, step_budget=800000, budget=1800),
                    run("C08_revert", covers=["memonly"], store=0, flushes=0, bigval=0, lean=0, unwind_violation=1)],
          outside=["more than 2 (quick) / 3 (thorough) flushes before the reverts", "collections other than a", "1-byte keys; values of 1 byte, or 12 symbolic bytes (long enough to spell the doubled end marker) for the first item of the newest flush"],
          text="Bounded symbolic model checking of the real SSA: histories with f flushes of symbolic data (optionally across a re-open, optionally with an unflushed change pending, set only or also written with Collection.Write) followed by r = 1..f+1 consecutive FlushReverts. Termination is checked with a code-derived step cap (each scan iteration strictly decreases Store.size): exceeding it is reported as the violation and confirmed natively under a watchdog. State, file length and a re-open must match the model's flush stack after each revert; new flushes after a revert must be durable; memory-only stores must reject the call. A 12-byte symbolic value lets the solver try to fool the backward scan with look-alike end markers.",
